@@ -901,6 +901,99 @@ fn det(tier: &str, seed: u64, outdir: &str) {
         st.by_gen.insert("value-twin-pairs".into(), pairs);
         *st.by_gen.entry("schedules".into()).or_default() += 1;
     }
+    // (8) indentation twins, across processes: a document and a variant of the same length in which
+    // every indented line keeps its first 0..n characters' worth of head but has some of its leading
+    // blanks moved behind its first word (so lengths, line counts and the first line of every token
+    // agree, the indentation does not).  State keyed lossily (a length, a hash of a prefix) and kept
+    // for the whole process shows when one process formats twin, document, twin and the results
+    // differ from those of processes that format only the one or only the other.
+    {
+        let shift = |s: &str, k: usize| -> String {
+            let mut out = String::new();
+            for (i, line) in s.split('\n').enumerate() {
+                if i > 0 {
+                    out.push('\n');
+                }
+                let lead = line.len() - line.trim_start_matches(' ').len();
+                if i == 0 || lead < k + 1 || line.trim().is_empty() {
+                    out.push_str(line);
+                    continue;
+                }
+                let body = &line[lead..];
+                let cut = body.find(' ').unwrap_or(body.len());
+                out.push_str(&line[..lead - k]);
+                out.push_str(&body[..cut]);
+                out.push_str(&" ".repeat(k));
+                out.push_str(&body[cut..]);
+            }
+            out
+        };
+        let mut cands: Vec<(String, Cfg)> = vec![];
+        // block comments with a long first line, in several positions and indentations
+        let heads = ["/* SPDX-License-Identifier: Apache-2.0 -- The Example Project, all rights reserved", "/* A long first line of a block comment that says what the following lines are about"];
+        let mut rc = Rng::new(mix(seed, 0x1D7));
+        for h in heads {
+            for ind in [2usize, 3, 4, 6, 8] {
+                for ctxk in 0..4 {
+                    let pad = " ".repeat(ind);
+                    let com = format!("{}\n{}alpha beta\n{}gamma delta */", h, pad, pad);
+                    let src = match ctxk {
+                        0 => format!("{}\n\nHello.\n", com),
+                        1 => format!("#let f() = {{\n  {}\n  x\n}}\n", com.replace('\n', "\n  ")),
+                        2 => format!("#f(\n  {},\n  a,\n)\n", com.replace('\n', "\n  ")),
+                        _ => format!("- item\n  {}\n  more\n", com.replace('\n', "\n  ")),
+                    };
+                    cands.push((src, Cfg { tab: 2, width: [40usize, 80, 120][rc.below(3)], blank: 2, reorder: false }));
+                }
+            }
+        }
+        for i in 0..docs.len() {
+            if cands.len() >= if tier == "thorough" { 260 } else { 100 } {
+                break;
+            }
+            if base[i].is_ok() && docs[i].0.len() < 4000 && docs[i].0.contains("\n  ") {
+                cands.push(docs[i].clone());
+            }
+        }
+        let run = |items: &[(String, Cfg)], tag: &str| -> Vec<String> {
+            let list = format!("{}/twin.{}.txt", outdir, tag);
+            let mut f = std::fs::File::create(&list).unwrap();
+            for (s, c) in items {
+                writeln!(f, "{} {} {} {} {}", c.tab, c.width, c.blank, if c.reorder { 1 } else { 0 }, hexs(s)).unwrap();
+            }
+            drop(f);
+            match std::process::Command::new(&exe).arg("fmtlist").arg(&list).output() {
+                Ok(o) => String::from_utf8_lossy(&o.stdout).lines().map(|l| l.to_string()).collect(),
+                Err(_) => vec![],
+            }
+        };
+        let mut pairs = 0u64;
+        for (s, c) in cands.iter() {
+            for k in [1usize, 2] {
+                let t = shift(s, k);
+                if t == *s || t.len() != s.len() || obs::parse(&t).root().erroneous() || obs::parse(s).root().erroneous() {
+                    continue;
+                }
+                let rs = run(&[(s.clone(), *c)], "s");
+                let rt = run(&[(t.clone(), *c)], "t");
+                let both = run(&[(t.clone(), *c), (s.clone(), *c), (t.clone(), *c)], "b");
+                pairs += 1;
+                st.evaluated += 3;
+                if rs.len() != 1 || rt.len() != 1 || both.len() != 3 {
+                    continue;
+                }
+                if both[1] != rs[0] {
+                    st.failures += 1;
+                    fails.push(fail_json("C17", "det", pairs, s, *c, "indent-twin", &format!("result differs from the result of a process that formats only this document, when the process formatted this document of the same length first: {:?}", t), ""));
+                } else if both[0] != rt[0] || both[2] != rt[0] {
+                    st.failures += 1;
+                    fails.push(fail_json("C17", "det", pairs, &t, *c, "indent-twin", &format!("result differs from the result of a process that formats only this document, when the process also formatted: {:?}", s), ""));
+                }
+            }
+        }
+        st.by_gen.insert("indent-twin-pairs".into(), pairs);
+        *st.by_gen.entry("schedules".into()).or_default() += 1;
+    }
     finish(outdir, vec![(st, fails)]);
 }
 
@@ -938,7 +1031,7 @@ pub fn flat1(fam: &str, n: usize) -> bool {
         best
     };
     let (ta, tb) = (measure(n), measure(4 * n));
-    let bad = tb / ta > 9.0 && tb > 0.3;
+    let bad = tb / ta > 10.0 && tb > 0.3;
     println!("{} flat family {}: {} repetitions {:.3}s, {} repetitions {:.3}s, ratio {:.1} (proportional work gives about 4)", if bad { "FAIL" } else { "PASS" }, fam, n, ta, 4 * n, tb, tb / ta);
     !bad
 }
@@ -1037,8 +1130,9 @@ fn perf(tier: &str, outdir: &str) {
         // flat families: time(4n) against time(n) for one construct repeated at a single level
         let bases: &[usize] = if flat_thorough { &[30_000, 60_000] } else { &[30_000] };
         for fam in crate::gens::FLAT_FAMILIES {
-            for &n in bases {
+            for &n0 in bases {
                 let cfg = Cfg { tab: 2, width: 80, blank: 2, reorder: true };
+                let mut n = n0;
                 let measure = |k: usize| -> Option<(f64, u64, u64, usize)> {
                     let src = crate::gens::flat_case(fam, k);
                     let source = Source::detached(src.clone());
@@ -1050,7 +1144,16 @@ fn perf(tier: &str, outdir: &str) {
                     let ob = crate::observe(&source, cfg).ok()?;
                     Some((t0.elapsed().as_secs_f64(), ob.count, nodes, src.len()))
                 };
-                let (Some(a), Some(b)) = (measure(n), measure(4 * n)) else {
+                // cheap constructs are repeated more often, until the larger run takes a measurable time
+                let mut probe = measure(4 * n);
+                while let Some(p) = probe {
+                    if p.0 >= 0.25 || n >= 16 * n0 {
+                        break;
+                    }
+                    n *= 4;
+                    probe = measure(4 * n);
+                }
+                let (Some(a), Some(b)) = (measure(n), probe) else {
                     fails.push(fail_json("C18", "flat", n as u64, &format!("flat family {} x {}", fam, n), cfg, "no-output", "panic, refusal or syntax error", ""));
                     st.failures += 1;
                     continue;
@@ -1067,7 +1170,7 @@ fn perf(tier: &str, outdir: &str) {
                 let (mut ta, mut tb) = (a.0, b.0);
                 let mut tries = 0;
                 // a suspicious ratio is re-measured (best of four) before it counts
-                while tb / ta > 9.0 && tb > 0.3 && tries < 3 {
+                while tb / ta > 10.0 && tb > 0.3 && tries < 3 {
                     if let (Some(a2), Some(b2)) = (measure(n), measure(4 * n)) {
                         ta = ta.min(a2.0);
                         tb = tb.min(b2.0);
@@ -1075,7 +1178,7 @@ fn perf(tier: &str, outdir: &str) {
                     tries += 1;
                 }
                 table.push(format!("{} {}->{}: {:.0}->{:.0}ms x{:.1}", fam, n, 4 * n, ta * 1e3, tb * 1e3, tb / ta));
-                if tb / ta > 9.0 && tb > 0.3 {
+                if tb / ta > 10.0 && tb > 0.3 {
                     st.failures += 1;
                     fails.push(fail_json("C18", "flat", n as u64, &format!("flat family {} x {} (generated by `vh flat {} {}`)", fam, 4 * n, fam, 4 * n), cfg, "time",
                         &format!("flat family {}: time grew {:.1}x from {} to {} repetitions ({:.3}s -> {:.3}s; proportional work gives about 4x)", fam, tb / ta, n, 4 * n, ta, tb), ""));
